@@ -15,7 +15,7 @@ from .common import set_interrupts, COMPONENTS_BASE, run_sim, new_sim, finish_ou
 
 PID = "C13"
 LEVEL = "fault_enumeration"
-BUDGET = {"quick": 30000, "thorough": 300000}
+BUDGET = {"quick": 100000, "thorough": 1000000}
 RULE = (
     "each run draws a generator program {raise before yield | no yield | yield} x handler {none, finally, "
     "swallow, re-raise, raise new, raise new from None, raise same type, return, yield again, raise "
